@@ -84,7 +84,7 @@ Definition ctstep (s : cshared) (p : cpc) (arg : Z) : option (cshared * cpc) :=
   match p with
   | CDone _ => None
   | PCl1 =>
-      if chst s =? hCl then Some (s, CDone oCloseNoop)
+      if chst s =? hCl then Some (s, PCl2 [] false)   (* the early return leaves only the locked closure *)
       else
         let s1 := if chst s <? hSC then set_chst s hSC else s in
         match conns s with
@@ -164,16 +164,18 @@ Definition cinit : csys := mkCS csh0 [].
 (* ---- harness entry point ------------------------------------------------------------
    case:  nops (op a b)*
      op 0 listen; 1 new connection; 2 connection a moves to state b; 3 Close; 4 callback for
-     connection a; 5 Connect;
+     connection a; 5 Connect            -- output: nothing, or -1 when the label is not enabled
      op 6: run thread a until it is at a schedule point whose class bit is set in mask b, or done;
            the scan step takes the current minimum (the harness never interleaves inside the scan)
+                                        -- output: the class it stopped at (0 done, -1 stuck)
      op 7: one step of thread a with label argument b (Close: the connection closed next)
-   observable, after every op: stop-class (0 = done, -1 = not enabled) channel-state #tracked-conns
-     closed-signals #owed;  at the end the outcome of every thread. *)
+                                        -- output: the class after the step (-1 not enabled)
+     op 8: observation                  -- output: channel-state #tracked-connections closed-signals
+   at the end: the outcome of every thread. *)
 Definition cpc_class (p : cpc) : Z :=
   match p with
   | CDone _ => 0
-  | PCl2 _ _ => 1      (* chan.Close.afterUnlock (only the first time: the harness parks there once) *)
+  | PCl2 _ _ => 1      (* chan.Close.afterUnlock, and again before every c.close() of the loop *)
   | PCb1 _ => 2        (* chan.closeStateChange.enter *)
   | PCb4 _ _ => 3      (* chan.closeStateChange.afterRead *)
   | PCb5 _ _ => 4      (* chan.closeStateChange.afterMinState with an update to apply *)
@@ -196,9 +198,6 @@ Fixpoint crun_to (fuel : nat) (s : csys) (tid : nat) (mask : Z) (first : bool) :
            end
   end.
 
-Definition cobs_of (s : csys) (code : Z) : list Z :=
-  [code; chst (csh s); zlen (conns (csh s)); g_closed (csh s); zlen (g_owed (csh s))].
-
 Fixpoint crun_ops (n : nat) (s : csys) (l : list Z) : list Z :=
   match n with
   | O => put_list (fun p => match p with CDone o => [o] | _ => [- cpc_class p] end) (cthr s)
@@ -207,20 +206,22 @@ Fixpoint crun_ops (n : nat) (s : csys) (l : list Z) : list Z :=
       | op :: a :: b :: r =>
           if op =? 6 then
             let '(s', code) := crun_to 200 s (Z.to_nat a) b true in
-            cobs_of s' code ++ crun_ops n' s' r
+            code :: crun_ops n' s' r
           else if op =? 7 then
             match cstep s (LRunC (Z.to_nat a) b) with
-            | Some s' => cobs_of s' (match nth_error (cthr s') (Z.to_nat a) with Some p => cpc_class p | None => -1 end)
-                         ++ crun_ops n' s' r
-            | None => cobs_of s (-1) ++ crun_ops n' s r
+            | Some s' => (match nth_error (cthr s') (Z.to_nat a) with Some p => cpc_class p | None => -1 end)
+                         :: crun_ops n' s' r
+            | None => -1 :: crun_ops n' s r
             end
+          else if op =? 8 then
+            [chst (csh s); zlen (conns (csh s)); g_closed (csh s)] ++ crun_ops n' s r
           else
             let lbl := if op =? 0 then LListen else if op =? 1 then LNewConn
                        else if op =? 2 then LConnMove (Z.to_nat a) b else if op =? 3 then LClose
                        else if op =? 4 then LCallback (Z.to_nat a) else LConnect in
             match cstep s lbl with
-            | Some s' => cobs_of s' 0 ++ crun_ops n' s' r
-            | None => cobs_of s (-1) ++ crun_ops n' s r
+            | Some s' => crun_ops n' s' r
+            | None => -1 :: crun_ops n' s r
             end
       | _ => [-9]
       end
